@@ -26,7 +26,7 @@ ASSUMPTIONS = ['completing a span early but inside the opening invocation is all
                'thread idents are virtual (harness-assigned); reuse of an ident by a later thread is an explored environment choice']
 
 SHAPES = ['calls', 'recursion', 'mutual', 'exc_caught_in_caller', 'exc_caught_inside', 'exc_propagates', 'try_finally', 'gen_full', 'gen_partial',
-          'gen_closed', 'klass', 'closure', 'with_block', 'loop']
+          'gen_closed', 'klass', 'closure', 'with_block', 'loop', 'mutate_and_return']
 KINDS = ['span_line', 'span_method', 'capture_method', 'capture_line', 'span_pair', 'span_line_pair', 'span_and_capture',
          'span_method_and_line', 'span_two_lines', 'span_method_and_callee', 'span_line_and_capture']
 
@@ -99,7 +99,8 @@ def make_trigger(prog, kind, at, fc, tpid='tp'):
         return build_trigger(tpid, path, at, dict(base, span='line', snapshot='no_collect'), [], [])
     if kind == 'span_method':
         return build_trigger(tpid, path, 0, dict(base, span='method', method_name=at, snapshot='no_collect'), [], [])
-    cfg = dict(base, watches=[], frame_type='no_frame')
+    # (the frame's variables are collected too where the point is what the capture does with values it has seen at entry)
+    cfg = dict(base, watches=[], frame_type='single_frame' if prog == 'mutate_and_return' else 'no_frame')
     if kind == 'capture_method':
         cfg['stage'] = 'method_capture'
         return Trigger(FunctionLocation(path, at, Location.Position.CAPTURE), [LocationAction(tpid, None, cfg, LocationAction.ActionType.Snapshot)])
@@ -411,11 +412,16 @@ def check_run(ctx, desc, label, case, events, agent, tr, store, thread_name=None
                 var = snap.var_lookup.get(w.result.vid) if w.result is not None else None
                 if exit_kind == 'return':
                     okv = w.expression == 'return' and var is not None and var.type == type(exit_val).__name__
+                    # ... and it is the value as it is when it is returned, not as it was when the function was entered
+                    if okv and type(exit_val) in (list, tuple, set, frozenset, dict):
+                        okv = var.value == 'Size: %d' % len(exit_val) and len(var.children) == min(len(exit_val), 10)
+                    elif okv and type(exit_val) in (int, str, bool, float, type(None)):
+                        okv = var.value == str(exit_val)
                 else:
                     okv = w.expression == 'exception' and var is not None
                 if not okv:
                     ctx.violation(f'C15/capture-wrong-value/{exit_kind}', f'{label}: invocation exits by {exit_kind} {exit_val!r}; capture recorded '
-                                                                          f'{w.expression} {(var.type, var.value) if var else None}', case)
+                                                                          f'{w.expression} {(var.type, var.value, len(var.children)) if var else None}', case)
                     return
             nontrivial = nontrivial or d['exit'][0] == 'exception' or any(
                 e2.func == o.func and e2.inv != o.inv and inv[e2.inv]['first'] < ev.idx <= inv[e2.inv]['last'] for e2 in events)
